@@ -116,6 +116,7 @@ func c09Body(script []string, base, max time.Duration, stop c09Stop, outNet **en
 		*outNet = net
 		var atts []*c09Attempt
 		var peers []*c09Peer
+		activeSeen := false
 		stopped := int64(-1)    // Disconnect returned / Connect's context cancelled
 		stopCalled := int64(-1) // Disconnect / cancel was called
 		dialAfterStop := false
@@ -144,7 +145,11 @@ func c09Body(script []string, base, max time.Duration, stop c09Stop, outNet **en
 			p := &c09Peer{a: a}
 			a.conn = net.NewConn(p)
 			peers = append(peers, p)
-			return &mqtt.BaseClient{Transport: a.conn}, nil
+			return &mqtt.BaseClient{Transport: a.conn, ConnState: func(st mqtt.ConnState, _ error) {
+				if st == mqtt.StateActive {
+					activeSeen = true
+				}
+			}}, nil
 		})
 		rc, err := mqtt.NewReconnectClient(dialer, mqtt.WithReconnectWait(base, max), mqtt.WithPingInterval(c09Interval), mqtt.WithTimeout(c09Timeout))
 		if err != nil {
@@ -161,19 +166,42 @@ func c09Body(script []string, base, max time.Duration, stop c09Stop, outNet **en
 		})
 		if stop.kind != "none" {
 			vrt.Go("stopper", func() {
-				vrt.Sleep(int64(stop.at))
+				if stop.at == -2 {
+					// act when the first connection has just become Active inside the client (the reconnect
+					// loop has not yet reported success to Connect's caller)
+					vrt.Await("first connection Active", func() bool { return activeSeen })
+				} else if stop.at < 0 {
+					// act as soon as the broker has accepted the first connection (the client may not
+					// even have read the CONNACK yet): the stop races with the success of Connect
+					vrt.Await("first CONNACK sent", func() bool {
+						for _, a := range atts {
+							if a.ok {
+								return true
+							}
+						}
+						return false
+					})
+				} else {
+					vrt.Sleep(int64(stop.at))
+				}
 				stopCalled = vrt.Now()
 				if stop.kind == "disconnect" {
 					rc.Disconnect(vctx.Background())
 					discRet = true
 				} else {
-					for _, a := range atts {
-						if a.ok {
-							// a connection had been established: the caller's context no longer governs
-							cancelIrrelevant = true
-						}
+					if activeSeen || connRet && connErr == nil {
+						// the first connection had already succeeded (the client reported it Active): the
+						// cancellation is not "before the first connection succeeded"; the client keeps managing
+						// the connection whatever Connect returns to its caller in this race
+						cancelIrrelevant = true
 					}
 					cancel()
+					if stop.kind == "cancel+disconnect" {
+						// the application gives up and tears the client down
+						vrt.Await("Connect returned", func() bool { return connRet })
+						rc.Disconnect(vctx.Background())
+						discRet = true
+					}
 				}
 				stopped = vrt.Now()
 			})
@@ -214,12 +242,12 @@ func c09Body(script []string, base, max time.Duration, stop c09Stop, outNet **en
 			}
 		}
 		// redial after loss: unless stopped, the last attempt must be a live connection
-		if stop.kind == "none" {
+		if stop.kind == "none" || stop.kind == "cancel" && cancelIrrelevant {
 			last := atts[len(atts)-1]
 			if !last.ok || last.endAt >= 0 {
 				vrt.Failf("c09/gave-up", "the client stopped dialling although the last connection attempt failed or ended\n%s", desc())
 			}
-			if !connRet || connErr != nil {
+			if stop.kind == "none" && (!connRet || connErr != nil) {
 				vrt.Failf("c09/connect-not-returned", "Connect returned=%v err=%v although a connection was established\n%s", connRet, connErr, desc())
 			}
 		}
@@ -245,13 +273,13 @@ func c09Body(script []string, base, max time.Duration, stop c09Stop, outNet **en
 			}
 		}
 		// stop conditions
-		if stop.kind == "disconnect" && !discRet {
+		if (stop.kind == "disconnect" || stop.kind == "cancel+disconnect") && !discRet {
 			vrt.Failf("c09/disconnect-blocked", "Disconnect has not returned\n%s", desc())
 		}
 		if dialAfterStop && !cancelIrrelevant {
 			vrt.Failf("c09/dial-after-stop:"+stop.kind, "a dial started after %s had taken effect\n%s", stop.kind, desc())
 		}
-		if stop.kind == "cancel" {
+		if stop.kind == "cancel" || stop.kind == "cancel+disconnect" {
 			established := false
 			for _, a := range atts {
 				if a.ok && a.dialAt <= stopped {
@@ -285,7 +313,7 @@ func runC09(c *Ctx) {
 	}
 	rec(nil)
 	c.Bound("scripts", fmt.Sprintf("all %d scripts of <=%d consecutive attempt outcomes over %v (then healthy) x (base,max) %v; keep-alive interval %v, timeout %v; schedules: default plus every single deviation (preemption or non-default task choice at a blocking point; thorough: two)", len(scripts), maxLen, c09Outcomes, waits, c09Interval, c09Timeout))
-	c.Bound("stop", fmt.Sprintf("for scripts of length<=2: Disconnect / cancellation of Connect's context at every instant of a grid (every 500 ms up to 20 s, and +-1 ns around every whole second) with P<=%d (scripts of length 2: P<=%d)", p, p-1))
+	c.Bound("stop", fmt.Sprintf("for scripts of length<=2: Disconnect / cancellation of Connect's context at every instant of a grid (the moment the broker accepts the first connection; every 500 ms up to 20 s, and +-1 ns around every whole second) with P<=%d (scripts of length 2: P<=%d)", p, p-1))
 	var net *env.Net
 	var last []string
 	for _, w := range waits {
@@ -306,7 +334,7 @@ func runC09(c *Ctx) {
 		}
 	}
 	// stop conditions: the instant is a free choice inside the scenario
-	var instants []time.Duration
+	instants := []time.Duration{-1, -2} // -1: the moment the broker accepts the first connection; -2: the moment the client reports it Active
 	for t := time.Duration(0); t <= 20*time.Second; t += 500 * time.Millisecond {
 		instants = append(instants, t)
 		if t%time.Second == 0 && t > 0 {
@@ -321,7 +349,7 @@ func runC09(c *Ctx) {
 		if len(sc) == 2 {
 			pp = p - 1
 		}
-		for _, kind := range []string{"disconnect", "cancel"} {
+		for _, kind := range []string{"disconnect", "cancel", "cancel+disconnect"} {
 			sc, kind, pp := sc, kind, pp
 			s := &vrt.Scenario{
 				Name:       fmt.Sprintf("C09/stop/%s/%s", kind, strings.Join(sc, ",")),
